@@ -104,6 +104,27 @@ func runWireSuite(seed uint64, n int, out *Out, stats *Stats) {
 				}
 			}
 		}
+		// a receiver that reuses its page variable: decode one page, hash it, decode the next page over it
+		if len(blocks) >= 4 {
+			var page []*ledger.Block
+			_ = json.Unmarshal(mustJSON(blocks[:2]), &page)
+			for _, b := range page {
+				_, _ = b.Hash()
+			}
+			_ = json.Unmarshal(mustJSON(blocks[2:4]), &page)
+			for k, b := range page {
+				h, _ := b.Hash()
+				want, _ := blocks[2+k].Hash()
+				if h != want {
+					out.Violation("C15", id, fmt.Sprintf("stale-hash	a block decoded over a previously decoded (and hashed) block reports hash %x, its content hashes to %x", h[:6], want[:6]))
+				}
+				for ti, t := range b.Transactions() {
+					if t.Id() != blocks[2+k].Transactions()[ti].Id() {
+						out.Violation("C15", id, "stale-id	a transaction decoded over a previously decoded one keeps the old id")
+					}
+				}
+			}
+		}
 		// synthetic values with odd field contents, through the mirror structs and the real decoder
 		for k := 0; k < 4; k++ {
 			jt := &JTx{Timestamp: []int64{0, 1, -1, 1 << 62, -(1 << 63), (1 << 63) - 1, w.now}[r.Intn(7)]}
